@@ -835,12 +835,40 @@ def g_edge_string(rnd):
     return s
 
 
+PREFIX_FAMILIES = [[b'x', b'x1', b'x12', b'x123'], [b'a', b'ab', b'abc'], [b'p', b'p(a)', b'p(a,b)'], [b'_x', b'_x_', b'_x_1']]
+
+
+def prefix_name_cases(rnd, tier):
+    """target names that are proper prefixes of one another, heuristics on them directly after each other in every order (the reader resolves
+    the targets of the decoded `_heuristic` symbols by name, one lookup after the other - seeded C08-r11: a one-entry lookup cache that compares
+    only a prefix), alone and with unrelated directives in between, heuristic and filter conversion on"""
+    import itertools
+    out = []
+    for fam in PREFIX_FAMILIES:
+        n = len(fam)
+        for perm in itertools.permutations(range(n)):
+            if tier != 'thorough' and n == 4 and rnd.random() < 0.5:
+                continue
+            calls = [(1, False), (2,)]
+            calls.append((4, 1, list(range(1, n + 1)), []))
+            for i, nm in enumerate(fam):
+                calls.append((8, nm, [i + 1]))
+            for j, i in enumerate(perm):
+                calls.append((11, i + 1, j % 6, rnd.choice(BIASES), rnd.choice(PRIOS), [rnd.choice([1, -1]) * rnd.randint(1, n)] if rnd.random() < 0.5 else []))
+                if rnd.random() < 0.2:
+                    calls.append((9, n + 1, 1))
+            calls.append((3,))
+            out.append((trip_case(rnd, calls, rnd.choice([(1, 1, 1), (0, 1, 1), (0, 1, 0), (1, 1, 0)])), {'kind': 'trip-prefix-names'}))
+    return out
+
+
 def gen(seed, tier):
     rnd = random.Random(seed * 104729 + 8)
     n_trip = {'quick': 1800, 'thorough': 40000, 'search': 3000}.get(tier, 1800)
     n_str = {'quick': 2500, 'thorough': 60000, 'search': 3000}.get(tier, 2500)
     out = fixed_cases()
     out += long_name_cases(random.Random(seed * 7477 + 85), tier)
+    out += prefix_name_cases(random.Random(seed * 7481 + 86), tier)
     for _ in range(n_trip):
         r = rnd.random()
         if r < 0.70:
